@@ -182,6 +182,36 @@ fn window_starts(obs: &[Obs], key: u8) -> Vec<usize> {
     starts
 }
 
+/// Is there a sequence of window starts, consecutive ones at least `d` apart, such that no window holds more than
+/// `lim` of the admissions at `t` (sorted, ms)? Boundaries are placed as early as possible (that is never worse);
+/// times are doubled so that "just after t" is an integer.
+fn windows_exist(t: &[u64], d: u64, lim: usize) -> bool {
+    let n = t.len();
+    if n <= lim {
+        return true;
+    }
+    if lim == 0 {
+        return false;
+    }
+    // best[i]: the earliest possible start of a window whose first admission is t[i] (None: unreachable)
+    let mut best: Vec<Option<i128>> = vec![None; n + 1];
+    best[0] = Some(i128::MIN / 4);
+    for i in 0..n {
+        let Some(b) = best[i] else { continue };
+        for j in i + 1..=(i + lim).min(n) {
+            if j == n {
+                return true;
+            }
+            // the next window starts after t[j-1], at or before t[j], and at least d after this one
+            let nb = (2 * t[j - 1] as i128 + 1).max(b + 2 * d as i128);
+            if nb <= 2 * t[j] as i128 && best[j].is_none_or(|x| nb < x) {
+                best[j] = Some(nb);
+            }
+        }
+    }
+    false
+}
+
 struct Stats {
     leaves: AtomicU64,
     runs: AtomicU64,
@@ -207,14 +237,14 @@ async fn evaluate(rep: &Report, st: &Stats, h: &[Ev], limit: usize) {
     let lim = limit as u64;
 
     for key in 0..KEYS {
-        let starts = window_starts(&obs, key);
-        // B2: admits between consecutive window starts <= limit
-        for (wi, s) in starts.iter().enumerate() {
-            let end = starts.get(wi + 1).copied().unwrap_or(obs.len());
-            let admits = obs[*s..end].iter().filter(|o| o.key == key && o.ok).count() as u64;
-            if admits > lim {
-                viol(rep, "B2-window-overfull", h, limit, format!("key {} admitted {admits} times in the window starting at {} ms", (b'A' + key) as char, obs[*s].t));
-            }
+        // B2: no more than `limit` admissions between two consecutive window starts. Where a limiter's windows
+        // start is its own business (per key at the key's first attempt, on one grid for all keys, ...); what
+        // every reading shares is that consecutive starts are at least d apart. So the oracle asks whether ANY
+        // placement of window starts at least d apart leaves at most `limit` admissions of this key in every
+        // window; it reports only if none exists.
+        let admitted: Vec<u64> = obs.iter().filter(|o| o.key == key && o.ok).map(|o| o.t).collect();
+        if !windows_exist(&admitted, d_ms(), limit) {
+            viol(rep, "B2-window-overfull", h, limit, format!("key {} admitted at {admitted:?} ms: no placement of windows at least {} ms apart keeps every window at {limit} admissions or fewer", (b'A' + key) as char, d_ms()));
         }
         // B1: admits in any [t, t+d) <= 2*limit (enough to anchor t at admitted attempts)
         let mine: Vec<&Obs> = obs.iter().filter(|o| o.key == key).collect();
